@@ -2,7 +2,8 @@
 
 usage: pyxlate.py <out_py dir> <module name> <jobs.json> <results.json>
 job: {"proto": "P", "infmt": "b"|"j", "outfmt": "b"|"j", "in": path, "out": path,
-      "chunk": optional int -> feed the reader through a raw stream that returns at most `chunk` bytes per read}
+      "chunk": optional int -> feed the reader through a raw stream that returns at most `chunk` bytes per read,
+      "mode": "hold" + "steps": read everything, then write; with "empty_batches" streams are written by several calls with empty lists between}
 result: {"rc": 0|3, "exc": str}
 """
 import importlib
@@ -59,7 +60,18 @@ def main():
                     held.append(list(v) if st["stream"] else v)
                 r.close()
                 for st, v in zip(job["steps"], held):
-                    getattr(w, "write_" + st["name"])(v)
+                    wr = getattr(w, "write_" + st["name"])
+                    if st["stream"] and job.get("empty_batches"):
+                        # several write calls for one stream, with empty batches before, between and after: an empty batch is no item
+                        wr([])
+                        i, n = 0, 1
+                        while i < len(v):
+                            wr(v[i:i + n])
+                            wr([])
+                            i, n = i + n, n % 3 + 1
+                        wr(iter(()))
+                    else:
+                        wr(v)
                 w.close()
             else:
                 r.copy_to(w)
